@@ -52,6 +52,23 @@ def main():
                         applied = pf
                         break
             if not applied:
+                # context drift after later fix commits: retry with fuzz
+                for pf in ("patch.rebased.diff", "patch.diff"):
+                    pth = os.path.join(d, pf)
+                    if os.path.exists(pth):
+                        sh(["git", "-C", WT, "checkout", "--", "."])
+                        rc, out = sh(["patch", "-p1", "--fuzz=3", "-s", "-d", WT, "-i", pth])
+                        if rc == 0:
+                            applied = pf + " (fuzz)"
+                            break
+                for junk in sh(["git", "-C", WT, "status", "--porcelain"])[1].splitlines():
+                    if junk.endswith((".orig", ".rej")):
+                        try:
+                            os.remove(os.path.join(WT, junk[3:]))
+                        except OSError:
+                            pass
+            if not applied:
+                sh(["git", "-C", WT, "checkout", "--", "."])
                 results[mid] = {"property": prop, "status": "patch-does-not-apply", "detail": out[-300:]}
                 print(mid, "PATCH DOES NOT APPLY")
                 continue
